@@ -39,9 +39,15 @@ def sameSummary (a b : Option Summary) : Bool :=
 /-- The two models agree on program `p` and input `inp`. -/
 def SameResult (p : Script) (inp : Input) : Prop := sameSummary (mSum p inp) (iSum p inp) = true
 
+/-- The machine's compiler accepts the program. -/
+def compiles (p : Script) : Bool :=
+  match typecheck p with
+  | .ok _ => true
+  | .error _ => false
+
 /-- C26 for every program the machine compiles: FALSE (see the counterexamples). -/
 def machine_interp_agree_full : Prop :=
-  ∀ (p : Script) (inp : Input), (∃ ds, typecheck p = .ok ds) → SameResult p inp
+  ∀ (p : Script) (inp : Input), compiles p = true → SameResult p inp
 
 theorem sameResult_of_agree {p : Script} {inp : Input}
     (h : Agree (sem Cfg.fixed p inp) (Ledger.Interp.run p inp)) : SameResult p inp := by
